@@ -18,7 +18,8 @@ fn pick_path(rng: &mut Rng, maxlen: usize) -> Term {
 pub fn op(rng: &mut Rng) -> Term {
     let v = VARS[rng.below(3)];
     let w = VARS[rng.below(3)];
-    match rng.below(12) {
+    match rng.below(13) {
+        12 => tag("drop", vec![ts(v)]),
         0 => {
             let n = rng.below(4);
             let kv: Vec<Term> = (0..2 * n).map(|_| ts(KEYS[rng.below(KEYS.len())])).collect();
@@ -65,6 +66,7 @@ pub fn render(o: &Term) -> String {
             format!("set {} [dict remove ${} {}]", o.nth(1).as_str(), o.nth(2).as_str(), keys.join(" "))
         }
         "copy" => format!("set {} ${}", o.nth(1).as_str(), o.nth(2).as_str()),
+        "drop" => format!("unset {}", o.nth(1).as_str()),
         "get" | "exists" => {
             let keys: Vec<String> = path(o.nth(2)).iter().map(|k| list_val(&[k.clone()])).collect();
             format!("dict {} ${} {}", o.nth(0).as_str(), o.nth(1).as_str(), keys.join(" "))
@@ -91,7 +93,7 @@ pub fn gen(tier: &str, seed: u64) -> Gen {
         let ops: Vec<Term> = (0..len).map(|_| op(&mut rng)).collect();
         cases.push(mk(ops));
     }
-    (cases, vec![("random operation sequences (create/set/unset/remove/copy/get/exists/keys/values/size, nested paths to depth 3, malformed literals) of length 1-30 over 3 variables".to_string(), n, false)])
+    (cases, vec![("random operation sequences (create/set/unset/remove/copy/get/exists/keys/values/size and removal of the variable itself, nested paths to depth 3, malformed literals) of length 1-30 over 3 variables".to_string(), n, false)])
 }
 
 pub fn run(case: &Term) -> Term {
